@@ -4,6 +4,8 @@ CONSTANTS
   MaxNotes = 6
   None = None
   Calls = {}
+  PopFirst = TRUE
+  BadClose = {1, 2, 3, 5, 8}
   GateBySubscription = FALSE
 INVARIANT NoViolation
 INVARIANT QuietOK
